@@ -704,3 +704,78 @@ fn fs_offset_from_cluster() {
     kani::cover!(c - 2 == fs.total_clusters - 1 && off > (1u64 << 32));
 }
 
+
+// ------------------------------------------------------------------------------------------- single faults at FileSystem level (C09)
+
+fn fault_dev(ft: FatType, variant: u8, fault_at: u32) -> (Geo, WinDev) {
+    let g = Geo::small(ft, 6);
+    let mut dev = win_for(&g);
+    dev.fat0 = sample_table(ft, variant);
+    dev.fat1 = dev.fat0;
+    dev.fault_at = fault_at;
+    dev.budget = 120;
+    (g, dev)
+}
+
+use crate::verif_support::dev::FAULT;
+
+fn is_fault<T>(r: &Result<T, Error<crate::verif_support::dev::Tok>>) -> bool {
+    matches!(r, Err(Error::Io(t)) if *t == FAULT)
+}
+
+/// op: 0 alloc(zero) 1 free chain 2 truncate chain 3 stats (recount) 4 read_status_flags 5 flush_fs_info (FAT32)
+/// 6 unmount 7 set_dirty_flag
+fn fault_fs_check(ft: FatType, op: u8) {
+    let fault_at: u32 = kani::any();
+    let (g, dev) = fault_dev(ft, 0, fault_at);
+    let mut info = FsInfoSector::default();
+    if op == 5 || op == 6 { info.dirty = true; info.free_cluster_count = Some(2); }
+    let cur = if op == 6 { FsStatusFlags { dirty: true, io_error: false } } else { FsStatusFlags::decode(0) };
+    let fs = core::mem::ManuallyDrop::new(mk_fs(dev, &g, crate::time::NullTimeProvider::new(), false, info, cur));
+    let (fault, ok) = match op {
+        0 => { let r = fs.alloc_cluster(Some(5), true); (is_fault(&r), matches!(r, Ok(6))) }
+        1 => { let r = fs.free_cluster_chain(2); (is_fault(&r), r.is_ok()) }
+        2 => { let r = fs.truncate_cluster_chain(2); (is_fault(&r), r.is_ok()) }
+        3 => { let r = fs.stats(); (is_fault(&r), matches!(r, Ok(s) if s.free_clusters() == 2)) }
+        4 => { let r = fs.read_status_flags(); (is_fault(&r), r.is_ok()) }
+        5 => { let r = fs.flush_fs_info(); (is_fault(&r), r.is_ok()) }
+        6 => { let r = fs.unmount_internal(); (is_fault(&r), r.is_ok()) }
+        _ => { let r = fs.set_dirty_flag(true); (matches!(r, Err(t) if t == FAULT), r.is_ok()) }
+    };
+    let d = fs.disk.borrow();
+    assert!(!d.oob);
+    // the fault surfaces as the I/O variant carrying the device's error; without a fault the call succeeds
+    if d.fired { assert!(fault); } else { assert!(ok); }
+    kani::cover!(d.fired && fault_at >= 1);
+    kani::cover!(!d.fired);
+}
+macro_rules! fault_fs_case {
+    ($name:ident, $ft:expr, $op:expr) => {
+        #[kani::proof]
+        #[kani::unwind(130)]
+        fn $name() { fault_fs_check($ft, $op); }
+    };
+}
+/// C09: a single device fault at ANY call position during a FileSystem-level operation is returned as
+/// Error::Io(device error); never swallowed, converted, a panic or an endless loop (call budget 120).
+fault_fs_case!(fault_fs_alloc12, FatType::Fat12, 0);
+fault_fs_case!(fault_fs_alloc32, FatType::Fat32, 0);
+fault_fs_case!(fault_fs_free16, FatType::Fat16, 1);
+fault_fs_case!(fault_fs_truncate12, FatType::Fat12, 2);
+fault_fs_case!(fault_fs_truncate32, FatType::Fat32, 2);
+fault_fs_case!(fault_fs_stats16, FatType::Fat16, 3);
+fault_fs_case!(fault_fs_status_flags32, FatType::Fat32, 4);
+fault_fs_case!(fault_fs_flush_info32, FatType::Fat32, 5);
+fault_fs_case!(fault_fs_unmount32, FatType::Fat32, 6);
+fault_fs_case!(fault_fs_unmount16, FatType::Fat16, 6);
+fault_fs_case!(fault_fs_set_dirty12, FatType::Fat12, 7);
+
+/// must-fail twin: claims FileSystem::alloc_cluster succeeds whatever the fault position.
+#[kani::proof]
+#[kani::unwind(130)]
+fn twin_fault_fs_alloc_always_ok() {
+    let fault_at: u32 = kani::any();
+    let (g, dev) = fault_dev(FatType::Fat16, 0, fault_at);
+    let fs = core::mem::ManuallyDrop::new(mk_fs(dev, &g, crate::time::NullTimeProvider::new(), false, FsInfoSector::default(), FsStatusFlags::decode(0)));
+    assert!(fs.alloc_cluster(None, false).is_ok());
+}
